@@ -86,7 +86,7 @@ CHECKS = {
               "ledger rules R0-R6 evaluated on every update result, every event object on the wire and every event_cleared callback; "
               "hook H6 audits the live buffer under the database's own mutex at every transaction, selection, response build and confirmation: list links both ways, free-slot accounting, total and written counters recomputed from the records, capacity, id order, overflow flag (rules L1-L4, A1-A6); distinct = (profile, solicited/unsolicited, fragment number, follow-up action) tuples"),
         runs=[dict(check="c03", scale=10, timeout_s=900)],
-        required=["events_created", "overflows", "event_objects_attributed", "R1_release_justified", "R3_conservation_ok", "R4_order_ok", "R5_selection_prefix_ok", "R5_unsol_selection_ok",
+        required=["points_removed_while_holding_events", "events_created", "overflows", "event_objects_attributed", "R1_release_justified", "R3_conservation_ok", "R4_order_ok", "R5_selection_prefix_ok", "R5_unsol_selection_ok",
                   "confirms_with_expected_release", "sol_timeouts", "late_confirms", "aborts", "reconnect_close", "reconnect_preempt", "disable_during_unsol_wait", "reads_deferred", "unsol_retries",
                   "event_buffer_audits", "event_buffer_audits_at_clear_written", "event_buffer_audits_at_events_info", "event_buffer_audits_at_write_unsolicited", "reconnect_by_disable"],
         thorough_scale=30.0,
@@ -100,7 +100,7 @@ CHECKS = {
               "hook H6 audits the counters those bits are computed from against the buffer's records at every release of the database mutex (rules A1-A6, L1-L4); "
               "distinct = (profile, solicited/unsolicited, fragment number, follow-up action) tuples"),
         runs=[dict(check="c13", scale=10, timeout_s=900)],
-        required=["iin_checked", "class_bit_ok", "overflow_bit_set_ok", "restart_bit_ok", "app_bit_set_ok", "broadcast_bit_ok", "restart_writes", "broadcasts", "overflow_discarded_carried_event",
+        required=["points_removed_while_holding_events", "iin_checked", "class_bit_ok", "overflow_bit_set_ok", "restart_bit_ok", "app_bit_set_ok", "broadcast_bit_ok", "restart_writes", "broadcasts", "overflow_discarded_carried_event",
                   "event_buffer_audits", "event_buffer_audits_at_clear_written", "event_buffer_audits_at_events_info", "reconnect_by_disable",
                   "broadcast_enable_disable", "broadcast_restart_write"],
         thorough_scale=30.0,
@@ -130,7 +130,7 @@ CHECKS = {
         runs=[dict(check="c11", scale=10, timeout_s=900), dict(check="c03", timeout_s=900, scale=4),
               # real threads: the C02 workload with the one-instant rule (torn_snapshot) evaluated on every response series
               dict(check="c02", scale=0.5, timeout_s=1500)],
-        required=["reads_with_more_than_64_headers_ok", "reads_deferred_behind_null_unsolicited", "deferred_read_superseded", "objects_checked", "complete_series_ok", "multi_fragment_series_ok", "partial_series_prefix_ok", "updates_between_fragments", "wrong_confirms", "series_ended_by_timeout", "series_ended_by_reconnect", "series_ended_by_new_request",
+        required=["points_removed_during_series", "points_added_during_series", "reads_with_more_than_64_headers_ok", "reads_deferred_behind_null_unsolicited", "deferred_read_superseded", "objects_checked", "complete_series_ok", "multi_fragment_series_ok", "partial_series_prefix_ok", "updates_between_fragments", "wrong_confirms", "series_ended_by_timeout", "series_ended_by_reconnect", "series_ended_by_new_request",
                   "snapshot_fragments_consistent", "snapshot_later_fragments", "snapshot_instant_unique"],
         thorough_scale=25.0,
         abnormal_exit_is_violation=True,
